@@ -27,9 +27,7 @@ use mc_core::{bfs, BfsStats, Ctx, Level, Machine};
 use mc_ledger::*;
 use num_bigint::BigInt;
 use num_traits::{Signed, Zero};
-use radix_engine::blueprints::consensus_manager::*;
 use radix_engine::blueprints::resource::{FungibleResourceManagerField, FungibleResourceManagerTotalSupplyFieldPayload, MintFungibleResourceEvent};
-use radix_engine::system::bootstrap::*;
 use radix_engine::system::system_db_reader::SystemDatabaseReader;
 use serde_json::json;
 use std::cell::Cell;
